@@ -1,3 +1,4 @@
+#![allow(unexpected_cfgs)]
 pub mod cgr;
 pub mod oligo;
 pub mod oligocgr;
